@@ -7,6 +7,13 @@ pub(super) fn number_infix(idx: u32) -> String {
     format!("r{idx:0>5}")
 }
 
+// The index that follows; an error (rather than an arithmetic overflow) if there is none
+pub(super) fn next_index(idx: u32) -> Result<u32, std::io::Error> {
+    idx.checked_add(1).ok_or_else(|| {
+        std::io::Error::other("the index numbers for rotated log files are exhausted")
+    })
+}
+
 pub(super) fn index_for_rcurrent(
     config: &FileLogWriterConfig,
     o_index_for_rcurrent: Option<u32>,
@@ -14,9 +21,13 @@ pub(super) fn index_for_rcurrent(
 ) -> Result<u32, std::io::Error> {
     // we believe what we get - but if we get nothing, we determine what's next
     // according to the filesystem
-    let mut index_for_rcurrent = o_index_for_rcurrent
-        .or_else(|| get_highest_index(&config.file_spec).map(|idx| idx + 1))
-        .unwrap_or(0);
+    let mut index_for_rcurrent = match o_index_for_rcurrent {
+        Some(idx) => idx,
+        None => match get_highest_index(&config.file_spec) {
+            Some(idx) => next_index(idx)?,
+            None => 0,
+        },
+    };
 
     if rotate_rcurrent {
         #[cfg(flexi_logger_verif)]
@@ -31,7 +42,7 @@ pub(super) fn index_for_rcurrent(
                 .as_pathbuf(Some(&number_infix(index_for_rcurrent))),
         ) {
             Ok(()) => {
-                index_for_rcurrent += 1;
+                index_for_rcurrent = next_index(index_for_rcurrent)?;
             }
             Err(e) => {
                 if e.kind() != std::io::ErrorKind::NotFound {
